@@ -13,6 +13,7 @@
 import Gzx.GoMNum
 import Gzx.Proofs.GoMTie
 import Gzx.Model.Perspective
+set_option linter.unusedSectionVars false
 namespace Gzx.K19
 open Gzx Gzx.GoM Gzx.Perspective
 
@@ -63,5 +64,65 @@ theorem loop_pairs {F : Type} (f : F → F → F × F) (g : List F → List F)
   intro rest done n hn
   subst hn
   exact (key rest).1 done
+
+theorem idxA_ge {F : Type} (xs : List F) (e : Int) (h : ((xs.length : Nat) : Int) ≤ e) : idxA xs e = .error oob := by
+  unfold idxA
+  have h0 : ¬ e < 0 := by omega
+  have : xs.length ≤ e.toNat := by omega
+  simp [h0, List.getElem?_eq_none this]
+
+/-- `for i := 0; i < len(xs); i++ { xs[i], ys[i] = f(xs[i], ys[i]) }` for an arbitrary body: the model's
+    `transformXYLoop` shape — a panic as soon as `ys` is exhausted first -/
+theorem loop_zip {F : Type} (f : F → F → F × F)
+    (body : Int → List F × List F → Ctl (List F × List F) (List F × List F))
+    (hstep : ∀ (dx dy : List F) (x y : F) (xs ys : List F), dx.length = dy.length →
+      body ((dx.length : Nat) : Int) (dx ++ x :: xs, dy ++ y :: ys) = .next (dx ++ (f x y).1 :: xs, dy ++ (f x y).2 :: ys))
+    (hpanic : ∀ (dx dy : List F) (x : F) (xs : List F), dx.length = dy.length →
+      body ((dx.length : Nat) : Int) (dx ++ x :: xs, dy) = .panic oob) :
+    ∀ (xs ys dx dy : List F), dx.length = dy.length →
+      loop body 1 xs.length ((dx.length : Nat) : Int) (dx ++ xs, dy ++ ys) =
+        if xs.length ≤ ys.length then
+          .next (dx ++ (List.zipWith (fun x y => (f x y).1) xs ys), dy ++ (List.zipWith (fun x y => (f x y).2) xs ys) ++ ys.drop xs.length)
+        else .panic oob := by
+  intro xs
+  induction xs with
+  | nil => intro ys dx dy _; simp [loop]
+  | cons x xs ih =>
+    intro ys dx dy hl
+    cases ys with
+    | nil =>
+      simp only [List.length_cons, List.length_nil, loop, List.append_nil]
+      rw [hpanic dx dy x xs hl]
+      simp
+    | cons y ys =>
+      simp only [List.length_cons, loop]
+      rw [hstep dx dy x y xs ys hl]
+      have := ih ys (dx ++ [(f x y).1]) (dy ++ [(f x y).2]) (by simp [hl])
+      simp only [List.length_append, List.length_cons, List.length_nil, List.append_assoc, List.cons_append, List.nil_append] at this
+      have e2 : (((dx.length + (0 + 1) : Nat) : Int)) = ((dx.length : Nat) : Int) + 1 := by omega
+      rw [e2] at this
+      simp only [this]
+      by_cases hle : xs.length ≤ ys.length
+      · simp [hle]
+      · simp [hle]
+
+/-- the model's `transformXYLoop` in closed form -/
+theorem transformXYLoop_eq (p : PT α) : ∀ (xs ys : List α),
+    p.transformXYLoop xs ys =
+      if xs.length ≤ ys.length then
+        .ok (List.zipWith (fun x y => (p.apply x y).1) xs ys, List.zipWith (fun x y => (p.apply x y).2) xs ys ++ ys.drop xs.length)
+      else .error (.panic "yValues[i]: index out of range") := by
+  intro xs
+  induction xs with
+  | nil => intro ys; simp [PT.transformXYLoop]
+  | cons x xs ih =>
+    intro ys
+    cases ys with
+    | nil => simp [PT.transformXYLoop]
+    | cons y ys =>
+      simp only [PT.transformXYLoop, ih ys, List.length_cons]
+      by_cases hle : xs.length ≤ ys.length
+      · simp [hle]
+      · simp [hle]
 
 end Gzx.K19
